@@ -233,6 +233,13 @@ def run_fista(c, rec):
             "x0_dtype": c.get("x0_dtype", "float64")}
     if rec.classify(tags, active and (m != n or np.any(x0 != 0))):
         return
+    if c.get("x0_dtype", "float64") != "float64":
+        # the same start vector written as float64: the very same iteration (the type of the start is not part of the problem)
+        twin = cuqi.solver.FISTA(op_forms(Am, c["form"]), b, x0.astype(float), proximal=prox, maxit=maxit, stepsize=t, abstol=1e-13, adaptive=c["adaptive"])
+        sol2, k2 = must(lambda: twin.solve(), "FISTA.solve")
+        require(k2 == k and maxdiff(sol, sol2) <= 1e-12 * (1 + np.linalg.norm(sol2)),
+                "FISTA from a start vector of another number type differs from the run from the same numbers as float64",
+                dtype=c["x0_dtype"], k=k, k_float64=k2, diff=maxdiff(sol, sol2))
     if k >= maxit:
         rec.inconc("fista_iteration_cap")
         return
